@@ -3,7 +3,9 @@ import Rustemo.Model.Print
 import Rustemo.Model.Cert
 import Rustemo.Driver.Regen
 import Rustemo.Driver.Cli
+import Rustemo.Driver.Resolve
 import Rustemo.Model.Canon
+import Rustemo.Model.Forest
 /-!
 Line-protocol driver: one request per line on stdin, one answer per line on stdout.
 
@@ -40,6 +42,8 @@ def handle (st : DState) (line : String) : DState × String :=
       let r := Cover.check st.dump.grammar st.dump.table (natOf s0) (natOf aug) (rn == "1") 5000
       (st, (if r.ok then "ok" else "fail") ++ s!" pairs={r.pairs} canon={r.canonStates} {r.why}")
     | _ => (st, "bad-request")
+  | "resolve" => (st, handleResolve rest)
+  | "forest" => (st, Rustemo.Forest.handleForest rest)
   | "cli" => (st, handleCli rest)
   | "regen" => (st, Rustemo.Regen.handleRegen rest)
   | "rawdet" => (st, if st.dump.table.rawDeterministic st.dump.grammar then "1" else "0")
